@@ -824,6 +824,10 @@ def error_scenarios(rng, count):
         chain = [rng.choice(links) for _ in range(rng.randint(0, 4))]
         caught_at = rng.choice([None, None, 0, len(chain)])       # None: uncaught; index of the level that catches
         earlier = rng.random() < 0.3                              # a caught throw earlier in the run (stale location)
+        if rng.random() < 0.4:
+            # string literals whose TEXT contains line breaks written as escapes: the source has none, lines must not shift
+            b.var("nl0", lit("first\nsecond\n\nfourth"))
+            b.var("nl1", {"k": "interp", "parts": [lit("a\nb"), b.v("nl0"), lit("\n")]} if False else lit("tab\tand\nnewline"))
         b.class_("MyErr", sup="Error", ctor="new"); b.method("make", ["c"], "ctor"); b.expr(b.superinv("new", b.v("c"))); b.end(); b.end()
         b.class_("Host", ctor="new")
         for i, link in enumerate(chain):
@@ -840,6 +844,8 @@ def error_scenarios(rng, count):
         n = len(chain)
         b.fn("step%d" % n, ["arg"])
         b.var("local", lit("live"))
+        if rng.random() < 0.3:
+            b.var("text", lit("x\ny"))
 
         def fail():
             if kind == "type-add": b.print(bin_("+", lit(1), lit("a")))
